@@ -90,6 +90,8 @@ pub struct G<'a, 'b> {
     types: Vec<String>,
     in_async: bool,
     in_generator: bool,
+    /// the local name `defineComponent` is bound to something that is not vue's defineComponent
+    alias_dc: bool,
 }
 
 pub const BOUND_VALUES: &[&str] = &["a", "b", "x", "y", "o", "f", "g", "xs", "p", "q", "m", "sl"];
@@ -126,6 +128,7 @@ impl<'a, 'b> G<'a, 'b> {
             types: vec![],
             in_async: false,
             in_generator: false,
+            alias_dc: false,
         }
     }
 
@@ -149,12 +152,24 @@ impl<'a, 'b> G<'a, 'b> {
         );
         // optional user imports from vue
         let imp = if self.k.force_define_component {
-            2
+            // mostly the real binding; sometimes another vue export under that local name
+            if self.c.chance(1, 6) { 6 } else { 2 }
         } else {
-            self.c.weighted(&[10, 2, 2, 2, 1, 1])
+            self.c.weighted(&[10, 2, 2, 2, 1, 1, 1])
         };
         match imp {
             0 => {}
+            6 => {
+                // the local name `defineComponent` bound to something else from 'vue': its calls
+                // are ordinary code (has_dc stays false: they are written as plain calls below)
+                self.f.ctx("other-vue-export-named-defineComponent");
+                out.push_str(self.c.choose(&[
+                    "import { defineCustomElement as defineComponent } from \"vue\";\n",
+                    "import defineComponent from \"vue\";\n",
+                    "import * as defineComponent from \"vue\";\n",
+                ]));
+                self.alias_dc = true;
+            }
             1 => out.push_str("import { Fragment } from \"vue\";\n"),
             2 => {
                 out.push_str("import { defineComponent } from \"vue\";\n");
@@ -184,7 +199,7 @@ impl<'a, 'b> G<'a, 'b> {
             out.push('\n');
         }
         if self.k.force_define_component {
-            let it = self.define_component_item(true);
+            let it = self.define_component_item(!self.alias_dc);
             out.push_str(&it);
             out.push('\n');
         }
@@ -1000,7 +1015,7 @@ impl<'a, 'b> G<'a, 'b> {
     }
 
     fn define_component_item(&mut self, has_dc: bool) -> String {
-        let callee = if has_dc {
+        let callee = if has_dc || self.alias_dc {
             "defineComponent"
         } else {
             self.c.choose(&["Vue.defineComponent", "f", "defineComponentX"])
